@@ -116,3 +116,94 @@ Section ExpandProofs.
     intros Hk Hf Hx. rewrite (run_plain x _ _ _ _ Hx). cbn [Model.run full]. now rewrite Hk, Hf.
   Qed.
 End ExpandProofs.
+
+(* ---- with an expected count ---- *)
+Section ExpandExpected.
+  Variable V : Type.
+  Variable rd : string -> option V.
+  Variable lin : V -> V -> nat -> list V.
+  Variable mul : V -> V -> V.
+
+  Notation run := (run V rd lin mul).
+
+  (* the counter is irrelevant whatever the expected count *)
+  Lemma vals_counter_e e n : forall ts acc k k',
+    List.length ts <= n -> vals V (run e acc k ts) = vals V (run e acc k' ts).
+  Proof.
+    induction n as [|n IH]; intros ts acc k k' Hn.
+    - destruct ts; [|simpl in Hn; lia]. cbn [Model.run]. unfold finish.
+      destruct e as [e|]; [destruct (Nat.eqb _ e)|]; reflexivity.
+    - destruct ts as [|t r].
+      { cbn [Model.run]. unfold finish. destruct e as [e|]; [destruct (Nat.eqb _ e)|]; reflexivity. }
+      simpl in Hn. cbn [Model.run].
+      destruct (full V e acc).
+      { unfold finish. destruct e as [e|]; [destruct (Nat.eqb _ e)|]; reflexivity. }
+      destruct (kind_of (lower t)) as [pre|pre|pre|pre| |].
+      + destruct (count_of pre); [|reflexivity]. destruct acc; [reflexivity|]. apply IH. lia.
+      + destruct acc as [|lo acc]; [reflexivity|]. destruct r as [|u r']; [reflexivity|].
+        destruct (rd (lower u)); [|reflexivity]. destruct lo; [|reflexivity].
+        destruct (count_of pre); [|reflexivity]. apply IH. simpl in Hn. lia.
+      + destruct pre; [reflexivity|]. destruct (rd _); [|reflexivity].
+        destruct acc as [|[w|] acc]; try reflexivity. apply IH. lia.
+      + destruct (count_of pre); [|reflexivity]. apply IH. lia.
+      + reflexivity.
+      + destruct (rd (lower t)); [|reflexivity]. apply IH. lia.
+  Qed.
+
+  (* n plain entries, as long as the expected count is not reached before the last *)
+  Lemma run_plains_e e x v n : plain V rd x v -> forall acc k ts,
+    List.length acc + n <= e ->
+    run (Some e) acc k (repeat x n ++ ts)%list
+    = run (Some e) (repeat (Some v) n ++ acc)%list (n + k) ts.
+  Proof.
+    intros [Hk Hr]. induction n as [|n IH]; intros acc k ts Hle; [reflexivity|].
+    cbn [repeat app]. cbn [Model.run full].
+    assert (F : Nat.leb e (List.length acc) = false) by (apply Nat.leb_gt; lia).
+    rewrite F, Hk, Hr. rewrite (IH (Some v :: acc) (S k) ts) by (cbn [List.length]; lia).
+    f_equal; [|lia].
+    clear. induction n as [|n IH]; [reflexivity|]. cbn [repeat app]. now rewrite IH.
+  Qed.
+
+  (* nR against its expansion when the repeated entries FIT the expected count *)
+  Theorem expand_repeat_expected e t pre n x v acc k ts :
+    kind_of (lower t) = KRep pre -> count_of pre = Some n -> plain V rd x v ->
+    List.length acc + 1 + n <= e -> n <> 0 ->
+    vals V (run (Some e) (Some v :: acc) k (t :: ts))
+    = vals V (run (Some e) (Some v :: acc) k (repeat x n ++ ts)%list).
+  Proof.
+    intros Hk Hc Hx Hle Hn.
+    rewrite (run_plains_e e x v n Hx) by (cbn [List.length]; lia).
+    cbn [Model.run full].
+    assert (F : Nat.leb e (List.length (Some v :: acc)) = false)
+      by (apply Nat.leb_gt; cbn [List.length]; lia).
+    rewrite F, Hk, Hc. apply (vals_counter_e (Some e) (List.length ts)). lia.
+  Qed.
+
+  (* ... and when they do NOT fit (an over-long card): the shorthand form is
+     rejected, its expansion is cut after the expected number of entries *)
+  Theorem expand_repeat_overlong e t pre n x v acc k :
+    kind_of (lower t) = KRep pre -> count_of pre = Some n -> plain V rd x v ->
+    List.length acc + 1 < e -> e < List.length acc + 1 + n ->
+    vals V (run (Some e) (Some v :: acc) k [t]) = XErr XValue /\
+    exists r, vals V (run (Some e) (Some v :: acc) k (repeat x n)) = XOk r /\ List.length r = e.
+  Proof.
+    intros Hk Hc Hx Hlo Hhi. split.
+    - cbn [Model.run full].
+      assert (F : Nat.leb e (List.length (Some v :: acc)) = false)
+        by (apply Nat.leb_gt; cbn [List.length]; lia).
+      rewrite F, Hk, Hc. cbn [Model.run]. unfold finish.
+      assert (N : Nat.eqb (List.length (repeat (Some v) n ++ Some v :: acc)%list) e = false).
+      { apply Nat.eqb_neq. rewrite app_length, repeat_length. cbn [List.length]. lia. }
+      now rewrite N.
+    - set (m := e - (List.length acc + 1)).
+      assert (Hn : n = m + (n - m)) by (unfold m; lia).
+      rewrite Hn, repeat_app.
+      rewrite (run_plains_e e x v m Hx) by (cbn [List.length]; unfold m; lia).
+      set (acc' := (repeat (Some v) m ++ Some v :: acc)%list).
+      assert (L : List.length acc' = e).
+      { unfold acc'. rewrite app_length, repeat_length. cbn [List.length]. unfold m. lia. }
+      destruct (n - m) as [|q] eqn:Eq; [unfold m in Eq; lia|].
+      cbn [repeat Model.run full]. rewrite L, Nat.leb_refl. unfold finish. rewrite L, Nat.eqb_refl.
+      cbn [vals]. eexists. split; [reflexivity|]. now rewrite rev_length.
+  Qed.
+End ExpandExpected.
